@@ -609,6 +609,21 @@ func (m *writerModel) ruleW5(r *Rep, rule string) {
 		}
 		r.Check(why == "", rule, key+"#done-after-write", c.Pos(wr.Pos()), "qwg.Done only after the call that writes the block has returned", why)
 
+		// (a') the compressor goes back to the pool only after its buffer was
+		// written: whoever takes it from the pool compresses the next block into
+		// the same buffer, under the bytes the underlying writer is still given
+		r.Instance(rule, 1)
+		why = ""
+		isReleaseAny := effAt("send:waiting")
+		allInstrs(fn, func(ins ssa.Instruction) {
+			if isReleaseAny(ins) {
+				if _, reach := pathTo(locOf(ins), isWrite, nil, nil); reach {
+					why += fmt.Sprintf(" the compressor is handed back (waiting<-c at %s) before its block is written: the next block is compressed into the buffer the underlying writer is still reading from;", c.Pos(ins.Pos()))
+				}
+			}
+		})
+		r.Check(why == "", rule, key+"#release-after-write", c.Pos(wr.Pos()), "waiting<-c only after the call that writes the block has returned", why)
+
 		// (b) error edges: latch before release and before Done
 		r.Instance(rule, 1)
 		why = ""
